@@ -201,6 +201,8 @@ def k3(cx):
         else:
             res.append(Finding(ID, 'K3', label, True, 'never re-fills the cell', fn['span']))
     # keep_running is only cleared; value = Some only in Remote::poll
+    from . import c19
+    FLAG, _v = c19._handle_fields(cx)
     for fn in sorted(F.fns.values(), key=lambda f: f['key']):
         if 'scheduler' not in fn['key']:
             continue
@@ -209,7 +211,7 @@ def k3(cx):
             if nd['kind'] != 'assign':
                 continue
             root, steps = access_path(nd['lhs'])
-            if steps and steps[-1] == 'keep_running':
+            if steps and steps[-1] == FLAG:
                 n += 1
                 ok = const_bool(nd['rhs']) is False
                 res.append(Finding(ID, 'K3', cx.label(fn) + '|keep_running', ok, 'keep_running only ever written false' if ok else 'keep_running is set again after construction: a cancelled task could run', g.loc(nd)))
@@ -244,6 +246,9 @@ def k4(cx):
     for im in F.impls_of('subscription::Subscription'):
         tag = roles.impl_tag(cx, im)
         cls = K4_TAGS.get(tag)
+        if cls == 'self.0':
+            # the slot is the (only) shared-cell field of the type, whatever it is called
+            cls = 'self.' + roles.field_where(cx, tag, lambda t, ti: t['k'] == 'adt' and t['p'] in ('rc::MutRc', 'rc::MutArc'), 'slot')
         if cx.control:
             cls = 'self.0' if tag == 'verif_controls::LazyMulti' else None
         if cls is None:
